@@ -161,6 +161,19 @@ theorem quiescent_output (ops : List Op) (hq : Quiet (run {} ops).now (run {} op
     sentTc (run {} ops) = getColor (run {} ops).now (run {} ops).stack := by
   rw [hw_target_invariant, target_eq_color_of_quiet _ _ hq]
 
+/-- Several keys may be fading out on one light at the same time: after every history each fade-out entry on the
+stack has its *own* pending removal delay, due exactly at the end of its fade (a later removal of another key never
+replaces it). -/
+theorem fade_out_has_timer (ops : List Op) (e : Entry) (he : e ∈ (run {} ops).stack) (hc : e.destC = none) :
+    (e.key, e.destT) ∈ (run {} ops).timers :=
+  run_induction GhostTimers step_ghostTimers ops {} (by intro e he; simp at he) e he hc
+
+/-- …hence no stale fade-out entry: once every removal delay whose deadline has passed has fired, every fade-out entry
+still on the stack is one whose fade is still running. -/
+theorem no_stale_fade_out (ops : List Op) (hfired : ∀ t ∈ (run {} ops).timers, (run {} ops).now < t.2)
+    (e : Entry) (he : e ∈ (run {} ops).stack) (hc : e.destC = none) : (run {} ops).now < e.destT :=
+  hfired _ (fade_out_has_timer ops e he hc)
+
 /-- Batched back end (PlatformBatchLightSystem after the D18 repair): for *every* interleaving of `set_fade` commands
 (`mark`), scheduler iterations, sender computations, callback starts (`flush`) and callback completions (`delivered`) —
 commands may arrive at any point, also while a callback is awaited — no dirty light is lost: every light that ever got a
@@ -213,5 +226,13 @@ example : (crun {} [.set 8 ⟨0, 8, 255, some 24⟩, .tick 8 1, .tick 9 1]).task
 /-- a command arriving while a callback is awaited (the D18 situation) is transmitted in the next round -/
 example : (Batch.run {} [.adv 16, .mark 0 ⟨0, 0, 255, none⟩, .compute 0, .flush, .mark 1 ⟨0, 0, 128, none⟩, .delivered,
     .compute 1, .flush, .delivered]).hw 1 = some (128, 255) := by decide
+
+/-- three keys fading out at once, removed within each other's windows; every delay fires; the stack is empty again -/
+def exOps3 : List Op :=
+  [.adv 8, .color (255, 0, 0) 0 1 1 8, .color (0, 255, 0) 0 1 2 8, .color (0, 0, 255) 0 2 3 8, .remove 3 8, .adv 9,
+   .remove 1 8, .remove 2 4]
+
+example : ((run {} exOps3).stack.filter (fun e => e.destC.isNone)).length = 3 ∧ (run {} exOps3).timers.length = 3 := by decide
+example : (run {} (exOps3 ++ [.adv 13, .fire 2, .adv 16, .fire 3, .adv 17, .fire 1])).stack = [] := by decide
 
 end MpfVerif.C09
